@@ -103,14 +103,20 @@ def parse_responses(raw: bytes, methods: Optional[List[bytes]] = None, eof: bool
         conn.send(h11.EndOfMessage())
         return True
     send_req()
+    if raw == b'':
+        return out      # nothing received (with or without EOF): zero responses, nothing malformed
     conn.receive_data(raw)
-    if eof:
-        conn.receive_data(b'')
     cur: Optional[Dict[str, Any]] = None
     interim: List[Dict[str, Any]] = []
+    eof_fed = False
     try:
         while True:
             ev = conn.next_event()
+            if ev is h11.NEED_DATA and eof and not eof_fed and (cur is not None or bytes(conn.trailing_data[0])):
+                # EOF matters only inside a message (close-delimited body / truncation); between messages it is clean
+                eof_fed = True
+                conn.receive_data(b'')
+                continue
             if ev is h11.NEED_DATA or ev is h11.PAUSED:
                 break
             if isinstance(ev, h11.InformationalResponse):
